@@ -18,7 +18,9 @@ def base_case(ctx):
     lo = max(4, (nmin + nvar - 1) // nvar + 2)
     n = rng.randint(lo, lo + 8)
     hetero = rng.random() < .4
-    dbin = gen_db(rng, ndim, nvar, n, nfex, p_na=(0.2 if hetero else 0.0))
+    dbin = gen_db(rng, ndim, nvar, n, nfex, p_na=(0.2 if hetero else 0.0), with_verr=rng.random() < .35)
+    if dbin['verr']:   # measurement-error variances: defined everywhere, about half of the data error-free (exactness applies to those)
+        dbin['verr'] = [[(0 if (x is None or rng.random() < .4) else x) for x in col] for col in dbin['verr']]
     for f in range(nfex):   # external drifts defined everywhere (drift shift needs their values)
         dbin['fext'][f] = [Fraction(rng.randint(-40, 40), 4) for _ in range(n)]
     m = 4
